@@ -13,7 +13,13 @@
                                     same with pre-confirmed blocks (oldest first) above the head
      rpcq <addrs> <keys> <from id> <to id> <chunk> <limit> <tokblock> <tokcount> <block> ...
                                     starknet_getEvents: block ids resolved as rpc/v*/events.go does; reply page | err | notfound
-     specp <addrs> <keys> <from> <to> <block> ...      filter_spec over chain ++ pre-confirmed blocks
+     specp <addrs> <keys> <from> <to> <block> ...      filter_spec_pre (the spec of C09_paging_concat_preconfirmed); must
+                                    equal filter_spec over chain ++ pre-confirmed blocks (else the reply is "spec !...")
+     pgseq <from> <to> <chunk> <limit> <matches> <npre> <size:tokblock:tokcount> ...
+                                    the predicates of C09_paging_terminates on a page sequence of the IMPLEMENTATION:
+                                    ok | bad chunk i | bad empty i | bad progress i | bad count <blocks>
+     pgseqr <from id> <to id> <chunk> <limit> <matches> <npre> <size:tokblock:tokcount> ...
+                                    same with block ids of starknet_getEvents (skip when an id does not resolve)
      spec <addrs> <keys> <from> <to>
      light <n>                      n blocks without transactions (err if any store fails)
      push | pop | forgetall         save / restore the session state; drop the whole cache (counterfactuals)
@@ -94,6 +100,33 @@ let show_out = function
 
 let b2s b = if b then "1" else "0"
 
+(* the paging predicates of Model.v (page_chunk_ok / page_empty_ok / page_progress_ok = the conjuncts of pages_ok,
+   page_count_ok) on a page sequence observed on the implementation; the first failing conjunct is named *)
+let parse_page (w : string) : n * (n * n) =
+  match String.split_on_char ':' w with
+  | [sz; tb; tc] -> (num sz, (num tb, num tc))
+  | _ -> failwith ("page " ^ w)
+
+let check_pages (from : n) (to_ : n) (chunk : n) (limit : n) (matches : n) (npre : int) (pages : (n * (n * n)) list) : string =
+  let pre = List.init npre (fun _ -> []) in
+  let ch = !st.chain in
+  let prev0 = (pre_start ch pre from, N0) in
+  let rec go i prev = function
+    | [] -> None
+    | p :: r ->
+        if not (page_chunk_ok chunk p) then Some ("chunk", i)
+        else if not (page_empty_ok limit p) then Some ("empty", i)
+        else if not (page_progress_ok prev p) then Some ("progress", i)
+        else go (i + 1) (snd p) r in
+  match go 0 prev0 pages with
+  | Some (w, i) -> Printf.sprintf "bad %s %d" w i
+  | None ->
+      let blocks = range_blocks ch pre from to_ in
+      if not (pages_ok chunk limit prev0 pages) then "bad pages_ok 0"
+      else if not (page_count_ok blocks matches (n_of_int (List.length pages))) then
+        Printf.sprintf "bad count %d" (int_of_n blocks)
+      else "ok"
+
 let () =
   read_lines (fun line ->
     let reply =
@@ -132,7 +165,24 @@ let () =
           st := s';
           (match r with None -> "notfound" | Some o -> show_out o)
       | "specp" :: a :: k :: f :: t :: pre ->
-          "spec " ^ show_evs (filter_spec (!st.chain @ List.map parse_block pre) (parse_filter a k) (num f) (num t))
+          let pre = List.map parse_block pre in
+          let flt = parse_filter a k in
+          let sp = filter_spec_pre !st.chain flt (num f) (num t) pre in
+          (* C09_spec_preconfirmed_is_spec_of_extended_chain (non-empty chain, from <> sentinel) *)
+          if !st.chain <> [] && sp <> filter_spec (!st.chain @ pre) flt (num f) (num t) then "spec !" ^ show_evs sp
+          else "spec " ^ show_evs sp
+      | "pgseq" :: f :: t :: chunk :: limit :: matches :: npre :: pages ->
+          check_pages (num f) (num t) (num chunk) (num limit) (num matches) (int_of_string npre)
+            (List.map parse_page pages)
+      | "pgseqr" :: fb :: tb :: chunk :: limit :: matches :: npre :: pages ->
+          (match !st.chain with
+           | [] -> "skip"
+           | ch ->
+             let latest = n_of_int (List.length ch - 1) in
+             (match resolve_bid false latest N0 (parse_bid fb), resolve_bid true latest latest (parse_bid tb) with
+              | Some f, Some t ->
+                  check_pages f t (num chunk) (num limit) (num matches) (int_of_string npre) (List.map parse_page pages)
+              | _, _ -> "skip"))
       | ["spec"; a; k; f; t] ->
           "spec " ^ show_evs (filter_spec !st.chain (parse_filter a k) (num f) (num t))
       | ["hyp"] ->
